@@ -608,3 +608,7 @@ mod tests {
         assert!(market.ask_vols() == loaded_market.ask_vols());
     }
 }
+
+#[cfg(any(kani, verif_replay))]
+#[path = "/verif/harness/market_proofs.rs"]
+pub(crate) mod verif_proofs;
